@@ -41,6 +41,9 @@ TCP stream, one receiver / sender per direction
   spec-tcp-seal <handle> <metaspec> <payload> <pad1> <pad2> <lePad>           → ok <bytes> | err range|low-entropy
         (the first call's bytes start with nonce0)
   spec-tcp-free <handle>                          → ok
+UDP associate encapsulation
+  spec-assoc-wrap <data>                          → ok <0x00 ‖ len ‖ data ‖ 0xff>      (data ≤ 65535 bytes)
+  spec-assoc-unwrap <stream bytes>                → ok <n> <packet>… rest=<bytes> | err marker
 Reasons: short auth format invalid length low-entropy payload-auth.  Malformed requests: bad-op.
 -/
 
@@ -222,6 +225,18 @@ def handler : IO Handler := do
           | none => return some "err low-entropy"
         | _ => return some "bad-op"
       | _, _, _, _, _, _ => return some "bad-op"
+    | "spec-assoc-wrap", [d] =>
+      match hexL d with
+      | some d => if d.length > 65535 then return some "bad-op" else return some s!"ok {hexOf (assocWrap d)}"
+      | none => return some "bad-op"
+    | "spec-assoc-unwrap", [b] =>
+      match hexL b with
+      | some b =>
+        match assocUnwrapAll (b.length / 4 + 1) b [] with
+        | some (ps, rest) =>
+          return some s!"ok {ps.length}{if ps.isEmpty then "" else " "}{" ".intercalate (ps.map hexOf)} rest={hexOf rest}"
+        | none => return some "err marker"
+      | none => return some "bad-op"
     | "spec-tcp-free", [h] =>
       match h.toNat? with
       | some h =>
